@@ -129,6 +129,12 @@ TFin ==
        /\ s.known => \A o \in {0, 2, 13, 31} : Ev.fan[o + 1] = RefHash(s.v, s.fed, o)
     /\ UNCHANGED gens
 
+\* hash_buf / hash_buf_for: new, one update, finalize() - judged against the declarative reference
+THashBuf ==
+    /\ IsEvent("hash_buf") /\ Clean
+    /\ Ev.r = RefHash(VariantByName(Ev.v), Ev.data, 2)
+    /\ UNCHANGED gens
+
 TConsts ==
     /\ IsEvent("gen_consts")
     /\ LET v == VariantByName(Ev.v) IN
@@ -145,7 +151,7 @@ TDlv ==
        /\ Ev.err_cons = ValidityIsErrOn(val, TRUE)
     /\ UNCHANGED gens
 
-TraceNext == TNew \/ TInject \/ TUpdate \/ TUpdateP \/ TClone \/ TFin \/ TConsts \/ TDlv
+TraceNext == TNew \/ TInject \/ TUpdate \/ TUpdateP \/ THashBuf \/ TClone \/ TFin \/ TConsts \/ TDlv
 
 TraceSpec == TraceInit /\ [][TraceNext]_vars
 
